@@ -42,7 +42,7 @@ fn num_cpus() -> usize {
 
 pub fn family_of(prop: &str) -> &'static str {
     match prop {
-        "C01" | "C02" | "C03" | "C04" | "C05" | "C07" | "C11" | "C12" | "C13" | "C14" => "D",
+        "C01" | "C02" | "C03" | "C04" | "C05" | "C07" | "C11" | "C12" | "C13" | "C14" | "C15" => "D",
         _ => "?",
     }
 }
@@ -127,9 +127,17 @@ pub fn cmd_worker(a: &[String]) {
             }
         }
         k += 1;
+        if k % 16 == 0 {
+            // flush statistics regularly: a run that deadlocks ends this process
+            let mut o = out.lock();
+            let _ = writeln!(o, "STATS {}", serde_json::to_string(&st).unwrap());
+            let _ = o.flush();
+            st = Stats::default();
+        }
     }
     let mut o = out.lock();
     let _ = writeln!(o, "STATS {}", serde_json::to_string(&st).unwrap());
+    let _ = writeln!(o, "DONE");
     let _ = o.flush();
 }
 
@@ -339,8 +347,9 @@ pub fn cmd_check(prop: &str, tier: &str) {
                 } else if let Some(j) = l.strip_prefix("STATS ") {
                     if let Ok(s) = serde_json::from_str::<Stats>(j) {
                         stats.merge(s);
-                        slots[i].done = true;
                     }
+                } else if l == "DONE" {
+                    slots[i].done = true;
                 }
             }
             Msg::Exit(i, code) => {
